@@ -92,7 +92,57 @@ fn length_family(r: &mut Rng) -> Vec<String> {
     }
     v
 }
+thread_local! {
+    /// URLs a family asks about (next to the random ones) and the cut it wants for the
+    /// optimize-then-add blocker
+    static FAMILY: std::cell::RefCell<(Vec<String>, Option<usize>)> = std::cell::RefCell::new((vec![], None));
+}
+/// Rules alike in everything but the letter case of a place where case is kept and matters: an
+/// escape class of a /regex/ (\d / \D ...), or any letter of a $match-case rule.
+fn case_significant_family(r: &mut Rng) -> Vec<String> {
+    let w = r.pick(gen::VOCAB);
+    let h = r.pick(gen::HOSTS);
+    let o = r.pick(&["", "$script", "$image,third-party"]);
+    let (mut v, mut urls): (Vec<String>, Vec<String>) = (vec![], vec![]);
+    match r.below(5) {
+        0 => { v.push(format!("/{}\\d/{}", w, o)); v.push(format!("/{}\\D/{}", w, o)); urls.push(format!("https://{}/{}5", h, w)); urls.push(format!("https://{}/{}x", h, w)); }
+        1 => { v.push(format!("/{}\\w+\\.js/{}", w, o)); v.push(format!("/{}\\W+\\.js/{}", w, o)); urls.push(format!("https://{}/{}ab.js", h, w)); urls.push(format!("https://{}/{}--.js", h, w)); }
+        2 => { v.push(format!("/{}\\s/{}", w, o)); v.push(format!("/{}\\S/{}", w, o)); urls.push(format!("https://{}/{}/x", h, w)); urls.push(format!("https://{}/{}%20x", h, w)); }
+        3 => { v.push(format!("/\\b{}[0-9]/{}", w, o)); v.push(format!("/\\B{}[0-9]/{}", w, o)); urls.push(format!("https://{}/{}1", h, w)); urls.push(format!("https://{}/x{}1", h, w)); }
+        _ => {
+            let cap = format!("{}{}", w[..1].to_uppercase(), &w[1..]);
+            let mc = if o.is_empty() { "$match-case".to_string() } else { format!("{},match-case", o) };
+            v.push(format!("/{}-[0-9]/{}", cap, mc)); v.push(format!("/{}-[0-9]/{}", w, mc));
+            urls.push(format!("https://{}/{}-1", h, cap)); urls.push(format!("https://{}/{}-1", h, w));
+        }
+    }
+    if r.chance(1, 2) { v.reverse(); }
+    if r.chance(1, 2) { v.push(gen::rule(r, true)); }
+    FAMILY.with(|f| *f.borrow_mut() = (urls, None));
+    v
+}
+/// Two token-less rules that fuse, then (past the cut: added after the first optimize()) rules whose
+/// text is the '|'-join of the two patterns; a second optimize() follows the additions.
+fn join_text_family(r: &mut Rng) -> Vec<String> {
+    let p1 = format!("{}{}{}", r.pick(&["-", "_", "/", "."]), r.pick(&["a", "b", "x", "q"]), r.pick(&["-", ".", "_"]));
+    let mut p2 = p1.clone();
+    while p2 == p1 { p2 = format!("{}{}{}", r.pick(&["-", "_", "/", "."]), r.pick(&["a", "b", "x", "q"]), r.pick(&["-", ".", "_"])); }
+    let o = r.pick(&["", "$script", "$image"]);
+    let h = r.pick(gen::HOSTS);
+    let v = vec![format!("{}{}", p1, o), format!("{}{}", p2, o), format!("{}|{}{}", p1, p2, o), format!("{}|{}{}", p2, p1, o)];
+    let urls = vec![format!("https://{}/z{}z", h, p1), format!("https://{}/z{}z", h, p2), format!("https://{}/z{}|{}z", h, p1, p2)];
+    FAMILY.with(|f| *f.borrow_mut() = (urls, Some(2)));
+    v
+}
+
 fn fusable(r: &mut Rng) -> Vec<String> {
+    FAMILY.with(|f| *f.borrow_mut() = (vec![], None));
+    if r.chance(1, 14) {
+        return case_significant_family(r);
+    }
+    if r.chance(1, 20) {
+        return join_text_family(r);
+    }
     if r.chance(1, 25) {
         return big_group(r);
     }
@@ -240,6 +290,10 @@ fn blocker_optimize_then_add(lines: &[String], tags: &[&str], cut: usize) -> Opt
         if fresh && res.is_err() {
             return None.or_else(|| { REJECTED.with(|c| c.set(true)); None });
         }
+    }
+    // half of the time a second optimisation pass follows the additions
+    if cut % 2 == 0 {
+        b.optimize();
     }
     b.use_tags(tags);
     Some(b)
@@ -402,15 +456,21 @@ fn main() {
                 }
             }
             // a live blocker that was optimised and then extended through add_filter
-            let cut = r.below(lines.len() + 1);
+            let (fam_urls, fam_cut) = FAMILY.with(|f| f.borrow().clone());
+            let cut = fam_cut.unwrap_or_else(|| r.below(lines.len() + 1));
             REJECTED.with(|c| c.set(false));
             let ext = blocker_optimize_then_add(&lines, tags, cut);
             if REJECTED.with(|c| c.get()) {
                 sm.failure(None, "after optimize(), add_filter refused a rule that was never added (FilterExists)", json!({"rules": lines, "tags": tags, "cut": cut, "url": "https://x.com/", "source": "https://a.com/", "type": "script"}));
             }
-            let nq = if lines.len() > 30 { lines.len() } else { 3 };
+            let nq = if lines.len() > 30 { lines.len() } else { 3 + fam_urls.len() };
             for qi in 0..nq {
-                let Some((mut url, src, ty, mut req)) = (if lines.len() > 30 {
+                let Some((mut url, src, ty, mut req)) = (if qi >= 3 && lines.len() <= 30 {
+                    // the URLs the family of this list is about
+                    let url = fam_urls[qi - 3].clone();
+                    let ty = if lines[0].contains("image") { "image" } else { "script" };
+                    Request::new(&url, "https://a.com/page", ty).ok().map(|q| { register_request(&q, &url, "https://a.com/page", ty); (url, "https://a.com/page".to_string(), ty, q) })
+                } else if lines.len() > 30 {
                     // big group: one URL per member
                     let p = lines[qi].trim_start_matches("@@").split('$').next().unwrap_or("").to_string();
                     let url = format!("https://{}{}", r.pick(gen::HOSTS), p);
